@@ -4,6 +4,7 @@ package main
 // module predicates expanded by path enumeration, and propositional entailment by truth table.
 
 import (
+	"go/constant"
 	"fmt"
 	"go/token"
 	"go/types"
@@ -509,6 +510,14 @@ func (fa *Facts) valueFormula(v ssa.Value, o *Origin, path []*ssa.BasicBlock, de
 		if !fa.NoExpand && depth < 4 {
 			fa.indexFuncContract(x, o, a, b, depth)
 		}
+		// len(s) compared with 0, s a string: the emptiness test of s (rules name `s == ""`)
+		if sa, sb, isEmptyTest, neg := stringEmptinessTest(x, a, b); isEmptyTest {
+			f := cmpAtom("==", sa, sb)
+			if neg {
+				return fNot(f)
+			}
+			return f
+		}
 		switch x.Op {
 		case token.EQL:
 			return cmpAtom("==", a, b)
@@ -872,6 +881,19 @@ func definitelyError(v ssa.Value, depth int) bool {
 				return true
 			}
 		}
+		// a helper of the module that only ever returns a freshly made error (errNotFound(msg) = status.Error(codes.NotFound, msg))
+		if g := x.Call.StaticCallee(); g != nil && InModule(g) && g.Blocks != nil && g.Signature.Results().Len() == 1 && isErrorType(g.Signature.Results().At(0).Type()) {
+			rets := returnsOf(g)
+			all := len(rets) > 0
+			for _, r := range rets {
+				if !definitelyError(r.Results[0], depth+1) {
+					all = false
+				}
+			}
+			if all {
+				return true
+			}
+		}
 	case *ssa.UnOp:
 		if g, ok := x.X.(*ssa.Global); ok && (strings.HasPrefix(g.Name(), "Err") || errorSentinel(g)) {
 			return true
@@ -1071,4 +1093,61 @@ func (o *Origin) domExit(in ssa.Instruction, e Exit) bool {
 		return o.dominates(in, e.Ret)
 	}
 	return in.Block() == e.Pred || in.Block().Dominates(e.Pred)
+}
+
+// stringEmptinessTest: x compares len(s) with 0 for a string s — `len(s) == 0`, `len(s) != 0`, `len(s) > 0`, `0 < len(s)`,
+// `len(s) < 1`, `len(s) >= 1`, `len(s) <= 0`. Returns the terms of s and of "" and whether the test is negated (s is NOT empty).
+func stringEmptinessTest(x *ssa.BinOp, a, b *Term) (*Term, *Term, bool, bool) {
+	lenOf := func(v ssa.Value, t *Term) *Term {
+		c, ok := v.(*ssa.Call)
+		if !ok || len(c.Call.Args) != 1 {
+			return nil
+		}
+		bi, ok := c.Call.Value.(*ssa.Builtin)
+		if !ok || bi.Name() != "len" {
+			return nil
+		}
+		bt, ok := c.Call.Args[0].Type().Underlying().(*types.Basic)
+		if !ok || bt.Info()&types.IsString == 0 || len(t.Args) != 1 {
+			return nil
+		}
+		return t.Args[0]
+	}
+	constInt := func(v ssa.Value) (int64, bool) {
+		c, ok := v.(*ssa.Const)
+		if !ok || c.Value == nil || c.Value.Kind() != constant.Int {
+			return 0, false
+		}
+		i, exact := constant.Int64Val(c.Value)
+		return i, exact
+	}
+	empty := &Term{Op: "const", Name: `""`}
+	op := x.Op
+	sx, k, okK := lenOf(x.X, a), int64(0), false
+	if sx != nil {
+		k, okK = constInt(x.Y)
+	} else if sx = lenOf(x.Y, b); sx != nil {
+		k, okK = constInt(x.X)
+		// mirror: k op len  ==  len op' k
+		switch op {
+		case token.LSS:
+			op = token.GTR
+		case token.GTR:
+			op = token.LSS
+		case token.LEQ:
+			op = token.GEQ
+		case token.GEQ:
+			op = token.LEQ
+		}
+	}
+	if sx == nil || !okK {
+		return nil, nil, false, false
+	}
+	switch {
+	case op == token.EQL && k == 0, op == token.LEQ && k == 0, op == token.LSS && k == 1:
+		return sx, empty, true, false
+	case op == token.NEQ && k == 0, op == token.GTR && k == 0, op == token.GEQ && k == 1:
+		return sx, empty, true, true
+	}
+	return nil, nil, false, false
 }
